@@ -2385,6 +2385,63 @@ impl<'s> Semantics<'s> {
         Ok(())
     }
 
+    /// True if one of the operands is an xmm register.
+    pub fn has_xmm_operand(&self) -> bool {
+        self.details()
+            .map(|detail| {
+                detail.operands[..detail.op_count as usize]
+                    .iter()
+                    .any(|operand| {
+                        operand.type_ == x86_op_type::X86_OP_REG
+                            && (x86_reg::X86_REG_XMM0 as u32..=x86_reg::X86_REG_XMM31 as u32)
+                                .contains(&(operand.reg() as u32))
+                    })
+            })
+            .unwrap_or(false)
+    }
+
+    /// The SSE2 scalar double move (f2 0f 10 / f2 0f 11), which shares its
+    /// mnemonic with the string instruction movsd.
+    pub fn movsd_sse(&self, control_flow_graph: &mut ControlFlowGraph) -> Result<(), Error> {
+        let detail = self.details()?;
+
+        let block_index = {
+            let block = control_flow_graph.new_block()?;
+
+            let src = self.operand_load(block, &detail.operands[1])?;
+            let low = if src.bits() > 64 {
+                Expr::trun(64, src)?
+            } else {
+                src
+            };
+
+            if detail.operands[0].type_ == x86_op_type::X86_OP_REG {
+                let value = if detail.operands[1].type_ == x86_op_type::X86_OP_REG {
+                    // register to register: the upper quadword is kept
+                    let dst = self.operand_load(block, &detail.operands[0])?;
+                    let upper = Expr::shl(
+                        Expr::shr(dst, expr_const(64, 128))?,
+                        expr_const(64, 128),
+                    )?;
+                    Expr::or(upper, Expr::zext(128, low)?)?
+                } else {
+                    // load: the upper quadword is cleared
+                    Expr::zext(128, low)?
+                };
+                self.operand_store(block, &detail.operands[0], value)?;
+            } else {
+                self.operand_store(block, &detail.operands[0], low)?;
+            }
+
+            block.index()
+        };
+
+        control_flow_graph.set_entry(block_index)?;
+        control_flow_graph.set_exit(block_index)?;
+
+        Ok(())
+    }
+
     pub fn movs(&self, control_flow_graph: &mut ControlFlowGraph) -> Result<(), Error> {
         let detail = self.details()?;
 
